@@ -921,6 +921,9 @@ func runC05(f *common.Flags, res *common.Result, m *mdl) {
 	// 1b. systematically degenerate entries, with the named output present
 	for _, ci := range []int{1, 0} {
 		for _, rc := range degenerateEntries(0, ci) {
+			if ci == 0 && (strings.HasPrefix(rc.tag, "deg:id") || strings.HasPrefix(rc.tag, "deg:out")) {
+				continue // the hex-position families once, with the one-byte content
+			}
 			hs := []hop{{Kind: "put", ID: 1, C: ci}, {Kind: "write", K: "a", ID: 0, Raw: rc.raw}, {Kind: "get", ID: 0},
 				{Kind: "getbytes", ID: 0}, {Kind: "getfile", ID: 0}}
 			tagParts := strings.SplitN(strings.SplitN(rc.tag, "@", 2)[0], ":", 4)
@@ -933,9 +936,9 @@ func runC05(f *common.Flags, res *common.Result, m *mdl) {
 	}
 	r := common.NewRNG(f.Seed)
 	// 2. the entry codec alone: raw entry, then Get / GetBytes / GetFile (with and without the output present)
-	nCodec, nHist := 700, 2000
+	nCodec, nHist, nTrace := 700, 1500, 120
 	if f.Tier == "thorough" {
-		nCodec, nHist = 30000, 40000
+		nCodec, nHist, nTrace = 30000, 40000, 3000
 	}
 	for i := 0; i < nCodec; i++ {
 		raw, tag := genRaw(r, 0)
@@ -956,5 +959,7 @@ func runC05(f *common.Flags, res *common.Result, m *mdl) {
 		}
 		one(hs, "history")
 	}
-	res.Rule = fmt.Sprintf("corpus, a systematic family of entries valid but for one degenerate field (each numeric field blank, a lone digit or sign at each of its 20 positions, signed, zero-padded, overflowing int64/uint64, trailing/inner junk, left-aligned; each of the 2x64 hex positions replaced by non-hex bytes, the other case, another digit; every separator and the header replaced; lengths +-3), %d raw index entries (valid, upper-case hex, wrong lengths, signs, overflowing and malformed numbers, foreign id, bad separators, random bytes) looked up through Get/GetBytes/GetFile, then %d random histories of 3..30 operations over 4 ids and 6 contents (empty, two equal-length pairs, one 40000-byte content) mixing Put/PutBytes/Get/GetBytes/GetFile/OutputFile with truncate/extend/flip/delete/replace of index and data files and raw entries; every result (found or not, bytes, size, OutputID, time, file name) and the final directory listing with contents are compared with the model; direct oracles: SHA-256 of returned bytes, os.Stat size of the named file, no panic, Put-then-GetBytes/GetFile; a history is non-trivial when it contains both a successful and a rejected GetBytes/GetFile", nCodec, nHist)
+	// 4. the operations every call performs, through the os shim
+	runC05Traces(f, res, m, nTrace)
+	res.Rule = fmt.Sprintf("corpus, a systematic family of entries valid but for one degenerate field (each numeric field blank, a lone digit or sign at each of its 20 positions, signed, zero-padded, overflowing int64/uint64, trailing/inner junk, left-aligned; each of the 2x64 hex positions replaced by non-hex bytes, the other case, another digit; every separator and the header replaced; lengths +-3), %d raw index entries (valid, upper-case hex, wrong lengths, signs, overflowing and malformed numbers, foreign id, bad separators, random bytes) looked up through Get/GetBytes/GetFile, then %d random histories of 3..30 operations over 4 ids and 6 contents (empty, two equal-length pairs, one 40000-byte content) mixing Put/PutBytes/Get/GetBytes/GetFile/OutputFile with truncate/extend/flip/delete/replace of index and data files and raw entries; every result (found or not, bytes, size, OutputID, time, file name) and the final directory listing with contents are compared with the model; direct oracles: SHA-256 of returned bytes, os.Stat size of the named file, no panic, Put-then-GetBytes/GetFile; a history is non-trivial when it contains both a successful and a rejected GetBytes/GetFile; finally %d histories run call by call through the os-shimmed copy of the package, where beside the result the sequence of file operations of every Put/PutBytes/Get/GetBytes/GetFile/OutputFile (with the Stat/Chtimes of c.used) is compared with the model's; the extracted booleans c05_holds_on / c05_put_holds_on are evaluated on every history", nCodec, nHist, nTrace)
 }
